@@ -196,8 +196,35 @@ def _ops(ttb, shp, rs):
     A(("K.copy.arrange", lambda o: o["K"].copy().arrange()))
     A(("K.copy.redistribute", lambda o: o["K"].copy().redistribute(0)))
     A(("khatrirao", lambda o: ttb.khatrirao(*[u for u in o["K"].factor_matrices])))
-    A(("tt_ind2sub(neg)", lambda o: ttb.pyttb_utils.tt_ind2sub(tuple(shp), o.setdefault("idx", neglin.copy()))))
-    A(("tt_sub2ind", lambda o: ttb.pyttb_utils.tt_sub2ind(tuple(shp), o.setdefault("subs", subs.copy()))))
+    # operations with extra operands: (name, f, prep) -- prep adds the operands to objs BEFORE the snapshot
+    A(("tt_ind2sub(neg)", lambda o: ttb.pyttb_utils.tt_ind2sub(tuple(shp), o["idx"]), lambda o: o.update(idx=neglin.copy())))
+    A(("tt_sub2ind", lambda o: ttb.pyttb_utils.tt_sub2ind(tuple(shp), o["subs"]), lambda o: o.update(subs=subs.copy())))
+    A(("tt_renumber", lambda o: ttb.pyttb_utils.tt_renumber(o["subs"], tuple(shp), tuple(slice(0, d) for d in shp)), lambda o: o.update(subs=subs.copy())))
+
+    # assignments: performed on a copy of the receiver; the right-hand side is an operand
+    def region(off):
+        return tuple(slice(off, d) for d in shp)
+
+    def rhs_sparse(off):
+        rshape = tuple(d - off for d in shp)
+        V = np.arange(1.0, float(np.prod(rshape)) + 1).reshape(rshape)
+        V[(0,) * N] = 0.0
+        return ttb.tensor(V).to_sptensor()
+
+    def assign(recv, key, val):
+        recv[key] = val
+        return recv
+
+    for off in (0, 1):
+        if all(d - off >= 1 for d in shp) and any(d - off >= 2 for d in shp):
+            A((f"S.copy[region+{off}]=sptensor", lambda o, off=off: assign(o["S"].copy(), region(off), o["V"]), lambda o, off=off: o.update(V=rhs_sparse(off))))
+            A((f"S.empty[region+{off}]=sptensor", lambda o, off=off: assign(ttb.sptensor(shape=shp), region(off), o["V"]), lambda o, off=off: o.update(V=rhs_sparse(off))))
+            A((f"T.copy[region+{off}]=tensor", lambda o, off=off: assign(o["T"].copy(), region(off), o["V"]), lambda o, off=off: o.update(V=rhs_sparse(off).to_tensor())))
+            A((f"T.copy[region+{off}]=ndarray", lambda o, off=off: assign(o["T"].copy(), region(off), o["V"]), lambda o, off=off: o.update(V=rhs_sparse(off).double())))
+    A(("S.copy[subs]=vals", lambda o: assign(o["S"].copy(), o["subs"], o["vals"]), lambda o: o.update(subs=subs.copy(), vals=np.array([[5.0], [0.0]]))))
+    A(("S.empty[subs]=vals", lambda o: assign(ttb.sptensor(shape=shp), o["subs"], o["vals"]), lambda o: o.update(subs=subs.copy(), vals=np.array([[5.0], [6.0]]))))
+    A(("T.copy[subs]=vals", lambda o: assign(o["T"].copy(), o["subs"], o["vals"]), lambda o: o.update(subs=subs.copy(), vals=np.array([5.0, 0.0]))))
+    A(("T.copy[lin]=vals", lambda o: assign(o["T"].copy(), o["lin"], o["vals"]), lambda o: o.update(lin=lin.copy(), vals=np.array([5.0, 0.0]))))
     return ops
 
 
@@ -227,7 +254,10 @@ class _:
         shp = tuple(case["shape"])
         rs = np.random.RandomState(case["seed"])
         objs = _objects(ttb, shp, rs)
-        name, f = _ops(ttb, shp, rs)[case["op"]]
+        op = _ops(ttb, shp, rs)[case["op"]]
+        name, f = op[0], op[1]
+        if len(op) > 2:
+            op[2](objs)
         snap = snapshot(ttb, objs)
         try:
             res = f(objs)
